@@ -275,6 +275,25 @@ func (a *Analyzer) CheckRule(clause ast.Clause) error {
 		return fmt.Errorf("variable %v used in transform %v does not appear in clause %v", v, *clause.Transform, clause)
 	}
 
+	// The statements of a let-transform are evaluated in the order in which
+	// they are written: a variable that the transform defines can only be
+	// used by a later statement.
+	if clause.Transform != nil && clause.Transform.IsLetTransform() {
+		defined := make(map[ast.Variable]bool)
+		for _, stmt := range clause.Transform.Statements {
+			uses := make(map[ast.Variable]bool)
+			ast.AddVars(stmt.Fn, uses)
+			for v := range uses {
+				if transformVarDefs[v] && !defined[v] {
+					return fmt.Errorf("in %v, variable %v is used in %v before the transform defines it", clause, v, stmt.Fn)
+				}
+			}
+			if stmt.Var != nil {
+				defined[*stmt.Var] = true
+			}
+		}
+	}
+
 	if hasMultipleTransforms(clause) {
 		return fmt.Errorf("composing multiple transforms not implemented yet %v", clause)
 	}
